@@ -234,6 +234,7 @@ func init() {
 		emitStruct("wireContent", c.namedStruct("mcp", "wireContent"), "mcp/content.go")
 		emitStruct("imageAudioWire", c.namedStruct("mcp", "imageAudioWire"), "mcp/content.go")
 		emitStruct("ResourceContents", c.namedStruct("mcp", "ResourceContents"), "mcp/content.go")
+		emitStruct("Icon", c.namedStruct("mcp", "Icon"), "mcp/protocol.go")
 		emitStruct("textWire", c.localStruct("mcp", "TextContent", "MarshalJSON"), "mcp/content.go TextContent.MarshalJSON")
 		emitStruct("toolUseWire", c.localStruct("mcp", "ToolUseContent", "MarshalJSON"), "mcp/content.go ToolUseContent.MarshalJSON")
 		emitStruct("toolResultWire", c.localStruct("mcp", "ToolResultContent", "MarshalJSON"), "mcp/content.go ToolResultContent.MarshalJSON")
